@@ -2,6 +2,9 @@
 // persistent process (what `occa translate -m <mode> [-l]` does, without the CLI front end).
 //   input  line:  <mode> <0|1 launcher> <hex of the OKL source>
 //   output line:  R <hex of the translated source>      or      R ERR
+//   input  line:  noop <outer x> <outer y> <outer z> <inner x> <inner y> <inner z>   (unsigned 64-bit)
+//   output line:  R 1  when occa::kernel::run hands a launch with these dimensions to the backend,
+//                 R 0  when it returns early (modeKernel_t::isNoop)
 // mode in {serial, openmp, cuda, hip, opencl, metal, dpcpp}.  Parser diagnostics go to stderr.
 #include <iostream>
 #include <sstream>
@@ -14,6 +17,23 @@
 #include <occa/internal/lang/modes/opencl.hpp>
 #include <occa/internal/lang/modes/metal.hpp>
 #include <occa/internal/lang/modes/dpcpp.hpp>
+#include <occa.hpp>
+#include <occa/internal/core/kernel.hpp>
+#include <occa/internal/core/device.hpp>
+
+// a backend kernel that only records that it was run
+struct probeKernel : public occa::modeKernel_t {
+  mutable int ran;
+  occa::lang::kernelMetadata_t md;
+  probeKernel(occa::modeDevice_t *d) :
+    occa::modeKernel_t(d, "probe", "", occa::json()), ran(0) {}
+  ~probeKernel() {}
+  int maxDims() const { return 3; }
+  occa::dim maxOuterDims() const { return occa::dim(-1, -1, -1); }
+  occa::dim maxInnerDims() const { return occa::dim(-1, -1, -1); }
+  const occa::lang::kernelMetadata_t& getMetadata() const { return md; }
+  void run() const { ++ran; }
+};
 
 static std::string unhex(const std::string &h) {
   std::string s;
@@ -39,7 +59,28 @@ int main() {
     std::istringstream ss(line);
     std::string mode, hexsrc;
     int launcher = 0;
-    ss >> mode >> launcher >> hexsrc;
+    ss >> mode;
+    if (mode == "noop") {
+      static occa::device dev({{"mode", "Serial"}});
+      unsigned long long v[6] = {1, 1, 1, 1, 1, 1};
+      for (int i = 0; i < 6; ++i) ss >> v[i];
+      // what the generated launcher does: occa::dim outer, inner; outer[k] = ...; setRunDims; run
+      occa::dim outer, inner;
+      outer.dims = 3;
+      inner.dims = 3;
+      for (int i = 0; i < 3; ++i) {
+        outer[i] = (occa::udim_t) v[i];
+        inner[i] = (occa::udim_t) v[3 + i];
+      }
+      probeKernel *pk = new probeKernel(dev.getModeDevice());
+      occa::kernel k(pk);
+      k.setRunDims(outer, inner);
+      k.run();
+      std::cout << "R " << (pk->ran ? 1 : 0) << std::endl;
+      k.free();
+      continue;
+    }
+    ss >> launcher >> hexsrc;
     const std::string src = unhex(hexsrc);
     occa::json props;
     props["mode"] = mode;
